@@ -97,9 +97,13 @@ def plan(tier, seed):
             if not ordered:
                 continue
             grng = gen_rng(seed, "vgroup/%s/%d" % (o.name, rnd))
-            g = G.make_group(gid, o, grng, ordered, 1, (36 if quick else 64) // o.weight, dims=dims)
+            g = G.make_group(gid, o, grng, ordered, 1, (0 if quick else 64) // o.weight, dims=dims, small=quick)
             gid += 1
             progs.append((G.Program("c09_s%d_%s_v%d_%s" % (seed, tier[0], rnd, n), [g]), flavors))
+    if os.environ.get("C09_OPS"):
+        # debugging / self-test aid: only the programs (unchanged) that contain one of the named operations
+        want = set(os.environ["C09_OPS"].split(","))
+        progs = [(p, f) for (p, f) in progs if any(g.op.name in want for g in p.groups)]
     return progs
 
 
@@ -234,6 +238,7 @@ def run_plan(ctx, tier, seed, want_flavors=None):
     recs = []
     info = dict(programs=len(pl), binaries=len(tl), build_s=round(build_s, 1), compiled=sum(1 for t in res if t.compiled), spaces={}, dropped=dropped)
     cases_by_prog = {}
+    failing_ids = set()
     for p, flavors in pl:
         cases = []
         meta = {}
@@ -245,12 +250,15 @@ def run_plan(ctx, tier, seed, want_flavors=None):
                                                                enumerated=sum(1 for _, w in vs if w == "enum"))
             for (v, why) in vs:
                 toks = g.case_tokens(v)
+                failing = expected_of_vals(g, v) == G.NOTHING
                 for inst in g.insts:
                     if not g.admits(inst, v):
                         continue
                     cid += 1
                     cases.append((str(cid), "%d %s %s" % (cid, inst.name, toks)))
                     meta[str(cid)] = (g, inst, v, why)
+                    if failing:
+                        failing_ids.add((p.name, str(cid)))
         cases_by_prog[p.name] = (cases, meta)
     cut_short = {}
     for p, fl, t in tl:
@@ -259,8 +267,11 @@ def run_plan(ctx, tier, seed, want_flavors=None):
         # phase 1: a few cases per instance; an instance that keeps dying is not fed its remaining cases
         # (every death costs a process restart; the defect is already witnessed)
         per = {}
-        first, rest = [], []
+        first, rest, failing = [], [], []
         for cid, line in cases:
+            if (p.name, cid) in failing_ids:
+                failing.append((cid, line))
+                continue
             nm_ = meta[cid][1].name
             per[nm_] = per.get(nm_, 0) + 1
             (first if per[nm_] <= 8 else rest).append((cid, line))
@@ -272,8 +283,26 @@ def run_plan(ctx, tier, seed, want_flavors=None):
         crashy = {k for k, v in died.items() if v >= 2}
         if crashy:
             cut_short["%s[%s]" % (p.name, fl)] = sorted(crashy)
+        # calls that must FAIL (NumPy raises) are only given to instances that have a failure channel (maybe result /
+        # success flag): without one an invalid argument is a broken precondition, not an accepted argument
+        channel = set()
+        for cid, toks in results.items():
+            g_, inst_ = meta[cid][0], meta[cid][1]
+            if g_.op.norm == "flag_tuple":
+                channel.add(inst_.name)
+                continue
+            for mark in ("TR", "VT"):
+                if mark in toks:
+                    k = toks.index(mark)
+                    if toks[k + 1] == "M" and toks[k + 2] == "1":
+                        channel.add(inst_.name)
+                    break
         rest2 = [(cid, line) for cid, line in rest if meta[cid][1].name not in crashy]
+        rest2 += [(cid, line) for cid, line in failing if meta[cid][1].name in channel and meta[cid][1].name not in crashy]
         skipped = {cid for cid, line in rest if meta[cid][1].name in crashy}
+        skipped |= {cid for cid, line in failing if not (meta[cid][1].name in channel and meta[cid][1].name not in crashy)}
+        nochannel = sum(1 for cid, line in failing if meta[cid][1].name not in channel)
+        info["failing_calls_not_given_to_instances_without_failure_channel"] = info.get("failing_calls_not_given_to_instances_without_failure_channel", 0) + nochannel
         r2, c2, t2 = R.run_cases(t.binary, rest2, env_extra=env)
         results.update(r2)
         crashes += c2
@@ -499,15 +528,19 @@ def same_result(exp, got):
     return list(exp[1:]) == list(got[1:])
 
 
-def expected_of(r):
-    o = r.g.op
+def expected_of_vals(g, vals):
+    o = g.op
     if o.family == "view":
         T = "int"
         for a in o.args:
-            if a.typ == "arr":
-                T = r.g.sig[a.name]["T"]
-        return o.oracle(r.vals, T)
-    return o.oracle(r.vals)
+            if a.typ == "arr" and g.sig.get(a.name):
+                T = g.sig[a.name]["T"]
+        return o.oracle(vals, T)
+    return o.oracle(vals)
+
+
+def expected_of(r):
+    return expected_of_vals(r.g, r.vals)
 
 
 def vals_brief(r):
